@@ -16,7 +16,9 @@ END = {"Event": "DTEND", "Todo": "DUE"}
 def values():
     from zoneinfo import ZoneInfo
     return [date(2024, 3, 30), datetime(2024, 3, 30, 12, 0), datetime(2024, 3, 30, 12, 0, tzinfo=timezone.utc),
-            datetime(2024, 3, 30, 12, 0, tzinfo=ZoneInfo("Europe/Berlin")), timedelta(days=1), timedelta(hours=5), timedelta(0), None]
+            datetime(2024, 3, 30, 12, 0, tzinfo=ZoneInfo("Europe/Berlin")), timedelta(days=1), timedelta(hours=5), timedelta(0), None,
+            # whole days PLUS a time of day (still a dur-time for a DATE start), a negative duration
+            timedelta(days=1, hours=6), -timedelta(hours=5)]
 
 
 def ops_for(cls):
